@@ -563,6 +563,9 @@ PROPS["C17"] = {
         leg("mt-foreign", "c17_mt", (3, 5), {"kind": "foreign", "size": 48}, what="foreign free vs owner malloc, 48-byte class"),
         leg("mt-foreign8", "c17_mt", (3, 5), {"kind": "foreign", "size": 8}, what="8-byte class"),
         leg("mt-foreign-fit", "c17_mt", (3, 4), {"kind": "foreign", "size": 3000}, what="fitting-size class"),
+        leg("mt-foreign-aligned", "c17_mt", (2, 3), {"kind": "foreign", "size": 1500, "align": 256, "after": 1792, "nown": 4}, what="blocks from scalable_aligned_malloc(1500, 256) (user address inside a 1792-byte slot) freed by another thread while the owner allocates full-slot objects"),
+        leg("mt-foreign-aligned2", "c17_mt", (2, 2), {"kind": "foreign", "size": 3000, "align": 1024, "after": 4032, "nown": 3}, what="same for the 4032-byte fitting bin, alignment 1024"),
+        leg("mt-foreign-aligned3", "c17_mt", (2, 2), {"kind": "foreign", "size": 2000, "align": 128, "after": 2688, "nown": 4}, what="same for the 2688-byte bin, alignment 128"),
         leg("mt-exit", "c17_mt", (2, 3), {"kind": "exit", "size": 48}, what="owner thread shuts down with live blocks; another thread frees them and allocates (orphan adoption)"),
         leg("mt-last", "c17_mt", (3, 4), {"kind": "last", "size": 8000}, what="foreign free of the only object of a slab vs owner malloc"),
         leg("mt-large", "c17_mt", (2, 3), {"kind": "large", "size": 100000}, what="large objects: foreign free + malloc through the large-object cache"),
